@@ -398,6 +398,31 @@ def f_and(*ps: Formula) -> Formula:
     out = list(dict.fromkeys(out))
     if not out:
         return FTrue
+    so = set(out)
+    for p in out:
+        if isinstance(p, FNot) and p.f in so:
+            return FFalse           # p and not p
+    # absorption: a conjunct (a or b) one of whose disjuncts is itself a conjunct is redundant; a disjunct whose negation is a
+    # conjunct drops out
+    if len(out) > 1 and any(isinstance(p, FOr) for p in out):
+        red = []
+        for p in out:
+            if isinstance(p, FOr):
+                if any(q in so for q in p.parts):
+                    continue
+                keep = tuple(q for q in p.parts if not ((isinstance(q, FNot) and q.f in so) or FNot(q) in so))
+                if len(keep) != len(p.parts):
+                    p = f_or(*keep)
+                    if p == FFalse:
+                        return FFalse
+                    if p == FTrue:
+                        continue
+            red.append(p)
+        red = list(dict.fromkeys(red))
+        if not red:
+            return FTrue
+        if red != out:
+            return f_and(*red)
     return out[0] if len(out) == 1 else FAnd(tuple(out))
 
 
@@ -415,6 +440,29 @@ def f_or(*ps: Formula) -> Formula:
     out = list(dict.fromkeys(out))
     if not out:
         return FFalse
+    so = set(out)
+    for p in out:
+        if isinstance(p, FNot) and p.f in so:
+            return FTrue            # p or not p
+    if len(out) > 1 and any(isinstance(p, FAnd) for p in out):
+        red = []
+        for p in out:
+            if isinstance(p, FAnd):
+                if any(q in so for q in p.parts):
+                    continue        # (a and b) or a  ==  a
+                keep = tuple(q for q in p.parts if not ((isinstance(q, FNot) and q.f in so) or FNot(q) in so))
+                if len(keep) != len(p.parts):
+                    p = f_and(*keep)    # (not a and b) or a  ==  b or a
+                    if p == FTrue:
+                        return FTrue
+                    if p == FFalse:
+                        continue
+            red.append(p)
+        red = list(dict.fromkeys(red))
+        if not red:
+            return FFalse
+        if red != out:
+            return f_or(*red)
     return out[0] if len(out) == 1 else FOr(tuple(out))
 
 
